@@ -50,10 +50,10 @@ where
 }
 
 fn op_a(leaf: &Leaf, arg: u64) -> OpA {
-    OpA { site: leaf.site, arg, trace: vec![] }
+    OpA { site: leaf.site, arg, trace: vec![], tok: Default::default() }
 }
 fn op_b(leaf: &Leaf, arg: u64) -> OpB {
-    OpB { site: leaf.site, arg, trace: vec![], blob: blob_for(leaf.site, arg) }
+    OpB { site: leaf.site, arg, trace: vec![], blob: blob_for(leaf.site, arg), tok: Default::default() }
 }
 
 fn request_builder<Ef: SimEffect>(leaf: &Leaf, arg: u64) -> RB<Ef> {
@@ -385,6 +385,13 @@ fn run_stmts<'a, Ef: SimEffect>(
                     log_out(env.em_label, "request");
                     env.acc = shell_request(leaf, env.acc, ctx).await;
                 }
+                Stmt::MakeAndDrop(leaf) => {
+                    // a request future that is created and dropped without ever being polled
+                    match leaf.op {
+                        OpKind::A => drop(ctx.request_from_shell(op_a(leaf, env.acc))),
+                        OpKind::B => drop(ctx.request_from_shell(op_b(leaf, env.acc))),
+                    }
+                }
                 Stmt::CapRequest(leaf) => {
                     log_out(env.em_label, "capability request");
                     let caps = env.handles.caps.lock().unwrap().clone();
@@ -586,6 +593,10 @@ fn legacy_stmts<'a>(stmts: &'a [Stmt], env: &'a mut LEnv, ctx: &'a LegacyCtx) ->
     async move {
         for s in stmts {
             match s {
+                Stmt::MakeAndDrop(leaf) => match leaf.op {
+                    OpKind::A => drop(ctx.a.request_from_shell(op_a(leaf, env.acc))),
+                    OpKind::B => drop(ctx.b.request_from_shell(op_b(leaf, env.acc))),
+                },
                 Stmt::Request(leaf) | Stmt::CapRequest(leaf) => {
                     env.acc = match leaf.op {
                         OpKind::A => ctx.a.request_from_shell(op_a(leaf, env.acc)).await,
